@@ -88,8 +88,29 @@ func init() {
 			}
 		}
 
-		// --- NewBuildState: `Coverage: TestCoverage{Files: map[..]..{}}` inside the state literal
+		// --- NewBuildState: `Coverage: *NewTestCoverage()` or `Coverage: TestCoverage{Files: map[..]..{}}` inside the
+		//     state literal: which of the maps exist before the state can be copied
 		initOf := map[string]bool{}
+		emptyMaps := func(fset *token.FileSet, where string, e ast.Expr) {
+			cl, ok := e.(*ast.CompositeLit)
+			if !ok || covSrc(fset, cl.Type) != "TestCoverage" {
+				failShape("%s: not a TestCoverage literal: %s", where, covSrc(fset, e))
+			}
+			for _, e := range cl.Elts {
+				ekv, ok := e.(*ast.KeyValueExpr)
+				if !ok {
+					failShape("%s: positional TestCoverage literal", where)
+				}
+				m, ok := ekv.Value.(*ast.CompositeLit)
+				if !ok {
+					failShape("%s: %s is not a map literal", where, covSrc(fset, ekv.Key))
+				}
+				if _, isMap := m.Type.(*ast.MapType); !isMap || len(m.Elts) != 0 {
+					failShape("%s: %s is not an empty map literal", where, covSrc(fset, ekv.Key))
+				}
+				initOf[covSrc(fset, ekv.Key)] = true
+			}
+		}
 		ast.Inspect(findFunc(state, "", "NewBuildState").Body, func(n ast.Node) bool {
 			kv, ok := n.(*ast.KeyValueExpr)
 			if !ok {
@@ -98,20 +119,20 @@ func init() {
 			if k, ok := kv.Key.(*ast.Ident); !ok || k.Name != "Coverage" {
 				return true
 			}
-			cl, ok := kv.Value.(*ast.CompositeLit)
-			if !ok || covSrc(fsetS, cl.Type) != "TestCoverage" {
-				failShape("NewBuildState: Coverage is initialised with %s", covSrc(fsetS, kv.Value))
-			}
-			for _, e := range cl.Elts {
-				ekv, ok := e.(*ast.KeyValueExpr)
-				if !ok {
-					failShape("NewBuildState: positional TestCoverage literal")
+			if covSrc(fsetS, kv.Value) == "*NewTestCoverage()" {
+				// the constructor: `return &TestCoverage{Tests: map..{}, Files: map..{}}` and nothing else
+				ctor := findFunc(results, "", "NewTestCoverage").Body.List
+				ret, ok := ctor[0].(*ast.ReturnStmt)
+				if len(ctor) != 1 || !ok || len(ret.Results) != 1 {
+					failShape("NewTestCoverage is not a single return")
 				}
-				m, ok := ekv.Value.(*ast.CompositeLit)
-				if _, isMap := m.Type.(*ast.MapType); !ok || !isMap || len(m.Elts) != 0 {
-					failShape("NewBuildState: Coverage.%s is not an empty map literal", covSrc(fsetS, ekv.Key))
+				addr, ok := ret.Results[0].(*ast.UnaryExpr)
+				if !ok || addr.Op != token.AND {
+					failShape("NewTestCoverage does not return &TestCoverage{..}")
 				}
-				initOf[covSrc(fsetS, ekv.Key)] = true
+				emptyMaps(fsetR, "NewTestCoverage", addr.X)
+			} else {
+				emptyMaps(fsetS, "NewBuildState", kv.Value)
 			}
 			return false
 		})
